@@ -235,6 +235,7 @@ def check(col: Collector, tier: str):
     check_templates(col)
     # ------------------------------------------------------------ R6 / R7
     check_cfg_and_runner(col)
+    check_no_jump_in_emitted_code(col, repo)
 
 
 def _members(src_text: str, class_name: str):
@@ -321,6 +322,46 @@ def check_templates(col: Collector):
             col.add("C05.R5", f"template:{rel.split('template/')[-1]}", f"slot-region:{var}", reg == region,
                     f"{var} must be rendered exactly once in {region} (found {reg}, {len(slots)} slot(s)): per-event code outside the per-event "
                     "method, or booking code inside it, changes what is re-initialised per event", rel)
+
+
+def check_no_jump_in_emitted_code(col: Collector, repo: Repo):
+    """C05.R11: the C++ text the package itself puts into the per-event function (retrieval code of the collection coders, built-in code
+    specifications, statement emitters) never jumps out of it.  `Fill()` and the `clear()` of every vector column are the LAST statements of
+    the event function: a `return` (or `continue`/`break`/`goto` at that level) in front of them leaves the vectors filled so far in place
+    for the next event.  A `throw` is loud and ends the job; it is not a jump in this sense.  Decided over every string literal of the
+    package that is C++ statement text (contains `;`), docstrings and messages of raised exceptions excluded."""
+    col.floor("C05.R11", 10)
+    import re as _re
+    jump = _re.compile(r"(?<![A-Za-z0-9_])(return|continue|break|goto)(?![A-Za-z0-9_])|(?<![A-Za-z0-9_:.>])exit\s*\(")
+    n_lit = 0
+    for mod in repo.modules.values():
+        doc_ids = set()
+        exc_ids = set()
+        for n in ast.walk(mod.tree):
+            if isinstance(n, ast.Expr) and isinstance(n.value, ast.Constant) and isinstance(n.value.value, str):
+                doc_ids.add(id(n.value))
+            if isinstance(n, (ast.Raise, ast.Assert)):
+                for x in ast.walk(n):
+                    exc_ids.add(id(x))
+            if isinstance(n, ast.Call) and isinstance(n.func, ast.Attribute) and n.func.attr in ("debug", "info", "warning", "error", "log"):
+                for x in ast.walk(n):
+                    exc_ids.add(id(x))
+        per_fn = {}
+        for f in mod.all_funcs:
+            for n in walk_no_nested(f.node):
+                per_fn[id(n)] = f.short
+        for n in ast.walk(mod.tree):
+            if isinstance(n, ast.Constant) and isinstance(n.value, str) and id(n) not in doc_ids and id(n) not in exc_ids and ";" in n.value:
+                # a throw statement's own message is text inside a C++ string literal: look at the code outside double quotes only
+                code = _re.sub(r'"(?:[^"\\]|\\.)*"', '""', n.value)
+                code = _re.sub(r"//.*", "", code)
+                n_lit += 1
+                hit = jump.search(code)
+                where = per_fn.get(id(n), mod.name.split(".")[-1])
+                col.add("C05.R11", where, f"no-jump-out-of-the-event:{n.value.strip()[:28]}", hit is None,
+                        f"emitted C++ text {n.value.strip()[:60]!r} " + (f"contains `{hit.group(0)}`: the event function is left before Fill()/clear(), "
+                        "the vector columns keep this event's entries for the next row" if hit else "stays inside the event function"), f"{mod.rel}:{n.lineno}")
+    col.info["emitted_statement_literals"] = n_lit
 
 
 def check_cfg_and_runner(col: Collector):
